@@ -46,7 +46,10 @@ def spec(th, seed):
     for name, defs in CONFIGS:
         main = name == 'RH_NO'
         units.append(U('C08_projection.' + name, SRC, 'plain', defs=list(defs), scale=(1.0 if main else (0.3 if th else 0.5)), libs=LIBS))
+    units.append(U('C08_projection.RH_ZO.clang', SRC, 'clang', defs=list(CONFIGS[2][1]), scale=0.2, libs=LIBS))
+    units.append(U('C08_projection.LH_NO.clang', SRC, 'clang', defs=list(CONFIGS[1][1]), scale=0.2, libs=LIBS))
     if th:
+        units.append(U('C08_projection.RH_NO.Os', SRC, 'plainOs', defs=[], scale=0.1, libs=LIBS))
         units.append(U('C08_projection.LH_ZO.clang', SRC, 'clang', defs=list(CONFIGS[3][1]), scale=0.1, libs=LIBS))
         units.append(U('C08_projection.RH_NO.O0', SRC, 'plainO0', defs=[], scale=0.02, libs=LIBS))
     return {
